@@ -56,9 +56,24 @@ theorem C14_source_delegation_and_poll :
       ("get_workable_slice_exact", "get_workable_slice_exact", 1), ("get_workable_slice_multiple_of", "get_workable_slice_multiple_of", 1),
       ("peek_available", "peek_available", 1), ("peek_ref", "peek_ref", 1), ("peek_slice", "peek_slice", 1), ("pop", "pop", 1),
       ("pop_move", "pop_move", 1), ("push", "push", 1), ("push_slice", "push_slice", 1), ("push_slice_clone", "push_slice_clone", 1)] ∧
-    Gen.pollShape.attemptsAtMost = 2 ∧ Gen.pollShape.registersBetweenAttempts = true ∧
-    Gen.pollShape.pendingOnlyAfterRegisteredAttempt = true ∧ Gen.pollShape.restoresPayload = true := by
-  exact ⟨rfl, rfl, rfl, rfl, rfl⟩
+    Gen.pollTraces = [[.attemptFail, .register, .attemptFail, .pending], [.attemptFail, .register, .attemptOk, .ready],
+                      [.attemptOk, .ready]] ∧ Gen.pollRestoresPayload = true := by
+  exact ⟨rfl, rfl, rfl⟩
+
+/-- The model's `poll` and the source's `poll` do the same thing: whatever the state and the operation, the sequence of
+    events of the model's poll (`pollEvents`: the same two tests as `poll`) is one of the event sequences the translator's
+    interpreter finds in `MRBFuture::poll` of the current tree, and it ends in `pending` exactly when `poll` returns `Pending`.
+    The interpreter follows loops, flags, `for` over a literal array, early returns and helper methods, so the loop form and
+    the unrolled form of `poll` yield the same set; a `poll` that does not look again after registering the waker, registers
+    before the first attempt, or returns `Pending` without a second attempt yields a different one. -/
+theorem C14_model_poll_is_a_source_trace (s : St) (op : Op) :
+    pollEvents s op ∈ Gen.pollTraces ∧ ((poll s op).2 = .pending ↔ (pollEvents s op).getLast? = some .pending) := by
+  have hp : (poll s op).2 = .pending ↔ ((step s op).2.granted = false ∧ (step (step s op).1 op).2.granted = false) := by
+    unfold poll
+    cases h1 : (step s op).2.granted <;> cases h2 : (step (step s op).1 op).2.granted <;> simp [h1, h2]
+  unfold pollEvents
+  cases h1 : (step s op).2.granted <;> cases h2 : (step (step s op).1 op).2.granted <;>
+    simp only [h1, h2, if_true, if_false, Bool.false_eq_true] <;> refine ⟨by decide, ?_⟩ <;> rw [hp] <;> simp [h1, h2]
 
 /-- Non-vacuity: full buffer, pending push, consumer frees a slot, the same future completes and stores the value once. -/
 example :
